@@ -348,6 +348,8 @@ def generate(rng, idx, tier, variant):
             ops.append({'op': 'copy', 'obj': who, 'route': rng.choice(['copy', 'deepcopy'])})
         elif r < 0.42:
             ops.append({'op': 'add_variable', 'obj': who, 'name': f'N{len(ops)}', 'v': rng.choice(DYADS)})
+        elif r < 0.47:
+            ops.append({'op': 'edit_endogenous', 'obj': who, 'how': rng.choice(['append', 'append', 'remove']), 'k': rng.randrange(4)})
         elif r < 0.55:
             ops.append({'op': 'eval', 'obj': who, 'expr': rng.choice(['{a} + 1', '{a} * {b}', '{a}[0] + nosuchname', '1 / ({a} - {a})', 'log({a} * 0)', '{a}[', 'lag({a})']), 'a': rng.choice(names), 'b': rng.choice(names), 'warnings_': rng.choice(['ignore', 'always', 'error'])})
     spec.pop('_allow_huge', None)
@@ -466,6 +468,10 @@ def call_is_finite(call):
         off = call['opts']['offset']
         if off and 0 <= tn + off < n and not np.isfinite(call['snap'][nm][tn + off]):
             return False
+    for nm in call.get('endo_offset', []):
+        off = call['opts']['offset']
+        if off and 0 <= tn + off < n and not np.isfinite(call['snap'][nm][tn + off]):
+            return False
     if call['opts']['errors'] not in ('raise', 'skip', 'ignore', 'replace'):
         return False
     return True
@@ -507,6 +513,7 @@ def do_solve(m, span, spec, op, endo, check, exo, ctx, step):
         'n': n,
         't': t_seen,
         'endo': endo,
+        'endo_offset': list(m.endogenous),
         'check': check,
         'exo': exo,
         'snap': snap,
@@ -595,6 +602,18 @@ def execute(schedule, ctx):
             ctx.probe('history:add_variable')
             ctx.log(step, 'add_variable')
             ctx.outcome('add_variable', 'ok')
+            continue
+        if op['op'] == 'edit_endogenous':
+            # the instance's own list of endogenous variables (each instance has its own copy of the class's) decides
+            # what a non-zero offset copies
+            lst = m.endogenous
+            cands = [x for x in spec['endo'] + spec['exo'] if x not in lst] if op['how'] == 'append' else list(lst)
+            if cands:
+                nm_ = cands[op['k'] % len(cands)]
+                lst.append(nm_) if op['how'] == 'append' else lst.remove(nm_)
+                ctx.probe('history:instance-endogenous-' + op['how'])
+            ctx.log(step, 'edit_endogenous', list(lst))
+            ctx.outcome('edit_endogenous', 'ok')
             continue
         if op['op'] == 'eval':
             # an unrelated container facility used between solves (it installs its own warning filter while it runs)
